@@ -1,6 +1,7 @@
 import ProductMD.Proofs.CINormal
 import ProductMD.Proofs.CIDistinct
 import ProductMD.Proofs.CIApi
+import ProductMD.Proofs.JsonRoundTrip
 /-!
 # C01 — composeinfo survives a write/read cycle unchanged
 
@@ -356,5 +357,61 @@ def CI.exApiCI : ComposeInfo :=
 
 example : (∀ o ∈ exOps, o.c = none → o.key = none) ∧ isOk (serialize exApiCI) = true ∧
     (uidsL exApiCI.variants) = [k%"A", k%"A-B", k%"A-B-C", k%"D-E"] := by decide +kernel
+
+end PM
+
+/-! ## bytes through the modelled JSON parser (builder jsonparse)
+
+`JsonParse.parseWith lim` (Model/JsonParse.lean) models CPython's `json.loads` (tied to the real one by
+`harness/json_diff.py`); `Proofs/JsonRoundTrip.lean` proves `parseWith lim (JsonText.dumps j) = .ok (PyVal.canon j)`:
+the parser returns every dict in the order of the text, i.e. in SORTED key order.  The writer's document `j` is in
+insertion order (`id, type, date, respin, …`), so the hypothesis `hjson` of `C01_bytes` (`parse (dumps j) = .ok j`)
+is not what CPython does (`C01_hjson_witness`).  With the modelled parser the byte statement needs instead that
+the READER does not depend on the key order of the document it is given — a statement about the library's own model
+only (`hord`; it holds by evaluation on the examples, a general proof over `deserialize` is open) — plus the explicit
+representability of the written document. -/
+namespace PM
+open CI
+
+/-- on the example compose the modelled CPython parser returns the key-sorted document, which is NOT the document the
+writer built: no parser can satisfy `hjson` of `C01_bytes` and agree with CPython here -/
+theorem C01_hjson_witness :
+    (match serialize exCI with
+     | .ok j => (match JsonParse.parse (JsonText.dumps j) with
+                 | .ok w => PyVal.beq w (PyVal.canon j) && !(PyVal.beq w j)
+                 | .error _ => false)
+     | .error _ => false) = true := by decide +kernel
+
+/-- **Bytes, parser modelled.**  The text of the first `dumps()`, parsed by the modelled `json.loads`, loaded and
+dumped again, is the same text.  `hrep`: the written document is JSON-representable with readable numbers (decidable
+on any instance); `hord`: loading the key-sorted document and dumping gives what loading the document as written and
+dumping gives (reader independent of key order; about the library model only). -/
+theorem C01_bytes_parsed (lim : Nat) (ci : ComposeInfo) (t : Str) (hk : WellKeyed ci)
+    (hrep : ∀ j, serialize ci = .ok j → Mf.jsonRep j = true ∧ JsonParse.numsOk lim j = true)
+    (hord : ∀ j, serialize ci = .ok j →
+      reloadDump (fun _ => .ok (PyVal.canon j)) (JsonText.dumps j) = reloadDump (fun _ => .ok j) (JsonText.dumps j)) :
+    dumps ci = .ok t → reloadDump (JsonParse.parseWith lim) t = .ok t := by
+  intro h
+  have h' := h
+  unfold dumps at h'
+  split at h'
+  · cases h'
+  · split at h'
+    · cases h'
+    · rename_i j hj
+      cases h'
+      have h1 := C01_bytes (fun _ => .ok j) ci _ hk (fun j' hj' => by rw [hj] at hj'; cases hj'; rfl) h
+      rw [← hord j hj] at h1
+      have hp := JsonParse.parseWith_dumps lim j (hrep j hj).1 (hrep j hj).2
+      unfold reloadDump at h1 ⊢
+      rw [hp]
+      exact h1
+
+/-- non-vacuity: both hypotheses hold of the example compose (layered, label, depth-3 forest) by evaluation, under
+CPython's default digit limit -/
+example : (match serialize exCI with
+    | .ok j => Mf.jsonRep j && JsonParse.numsOk JsonParse.defaultLimit j
+        && (reloadDump (fun _ => .ok (PyVal.canon j)) (JsonText.dumps j) == reloadDump (fun _ => .ok j) (JsonText.dumps j))
+    | .error _ => false) = true := by decide +kernel
 
 end PM
